@@ -206,6 +206,94 @@ func vRunCase9(t *testing.T, c vCase) (msg string) {
 				}
 			}
 		}
+	case "hidden-scalar":
+		// observe, mutate with mutator c.N, observe again: the second observation must describe the new value
+		vals := []*big.Int{big.NewInt(5), new(big.Int).Sub(vN, big.NewInt(2)), new(big.Int).Lsh(big.NewInt(1), 200)}
+		for _, v0 := range vals {
+			s, t, u := vScalarOf(t, v0), vScalarOf(t, new(big.Int).Sub(vN, big.NewInt(7))), vScalarOf(t, big.NewInt(12345))
+			_ = s.Bits()
+			_ = s.Encode()
+			_ = s.IsZero()
+			_ = s.Equal(t)
+			switch c.N {
+			case 0:
+				s.Add(t)
+			case 1:
+				s.Subtract(t)
+			case 2:
+				s.Multiply(t)
+			case 3:
+				s.Square()
+			case 4:
+				s.Invert()
+			case 5:
+				s.Set(t)
+			case 6:
+				s.Zero()
+			case 7:
+				s.One()
+			case 8:
+				s.MinusOne()
+			case 9:
+				s.SetUInt64(0xfedcba9876543210)
+			case 10:
+				_ = s.Decode(vPad32(big.NewInt(99)))
+			case 11:
+				_ = s.CSelect(1, u, t)
+			case 12:
+				_ = s.UnmarshalBinary(vPad32(big.NewInt(98)))
+			case 13:
+				s.S = t.S
+			}
+			f := &Scalar{S: s.S}
+			want := new(big.Int).SetBytes(f.Encode())
+			bits := s.Bits()
+			for i := 0; i < 256; i++ {
+				if uint(bits[i]) != want.Bit(i) {
+					return "after mutator " + itoa(c.N) + " Bits()[" + itoa(i) + "] does not describe the current value " + want.Text(16)
+				}
+			}
+			if !bytes.Equal(s.Encode(), f.Encode()) || s.IsZero() != f.IsZero() || s.Equal(u) != f.Equal(u) || s.LessOrEqual(u) != f.LessOrEqual(u) {
+				return "after mutator " + itoa(c.N) + " an observer disagrees with a fresh scalar holding the same limbs"
+			}
+			g := vElementOf(vG(), big.NewInt(3))
+			if got, ok := vPointOf(g.Multiply(s)); !ok || !vSame(got, vMulPt(want, vG())) {
+				return "after mutator " + itoa(c.N) + " Multiply uses a stale scalar value"
+			}
+		}
+	case "hidden-element":
+		g := vG()
+		e, q := vElementOf(vMulPt(big.NewInt(3), g), big.NewInt(5)), vElementOf(vMulPt(big.NewInt(9), g), big.NewInt(7))
+		_ = e.Encode()
+		_ = e.EncodeUncompressed()
+		_ = e.IsIdentity()
+		_ = e.Equal(q)
+		switch c.N {
+		case 0:
+			e.Add(q)
+		case 1:
+			e.Subtract(q)
+		case 2:
+			e.Double()
+		case 3:
+			e.Negate()
+		case 4:
+			e.Set(q)
+		case 5:
+			e.Identity()
+		case 6:
+			e.Base()
+		case 7:
+			_ = e.Decode(vSec1(vMulPt(big.NewInt(11), g), true))
+		case 8:
+			_ = e.Decode(vSec1(vMulPt(big.NewInt(11), g), false))
+		case 9:
+			_ = e.Decode([]byte{0})
+		}
+		f := &Element{x: e.x, y: e.y, z: e.z}
+		if !bytes.Equal(e.Encode(), f.Encode()) || !bytes.Equal(e.EncodeUncompressed(), f.EncodeUncompressed()) || e.IsIdentity() != f.IsIdentity() || e.Equal(q) != f.Equal(q) {
+			return "after mutator " + itoa(c.N) + " an observer disagrees with a fresh element holding the same coordinates"
+		}
 	default:
 		return "unknown case kind " + c.Kind
 	}
